@@ -55,7 +55,7 @@ static std::string run_seq(int prov, const std::vector<BOp> &ops, SeqStats *ss =
       if (ss) { ss->gens++; if (!r.null) ss->oks++; if (m.cb == CB_MUTATE) ss->mutating = true; if (m.headers.count("alg") || m.headers.count("typ")) ss->user_algtyp = true;
         if ((m.iat && m.claims.count("iat")) || (m.nbf_on && m.claims.count("nbf")) || (m.exp_on && m.claims.count("exp"))) ss->overriding = true; if (offs_changed && ss->gens > 1) ss->offset_change_between = true; offs_changed = false; }
       if (e.fail) { if (!r.null) bad = "generate-succeeds-where-statement-forbids:" + e.why; }
-      else if (r.null) { bool gn = prov == 1 && (e.alg == JWT_ALG_ES256K); if (!gn) bad = "generate-fails-for-valid-configuration"; }
+      else if (r.null) { bool gn = prov == 1 && (e.alg == JWT_ALG_ES256K || (e.key >= 0 && keytab()[e.key].k->crv == "secp256k1")); if (!gn) bad = "generate-fails-for-valid-configuration"; }
       else bad = check_token(r.token, e);
       if (bad.empty()) bad = state_check(x, m);   // the builder itself is unchanged by generating
       if (!bad.empty() && bad.rfind("builder-", 0) == 0) bad += "-after-generate";
